@@ -931,7 +931,8 @@ impl<'a> ClientAssociationOptions<'a> {
         let mut buf = BytesMut::with_capacity(
             (self.max_pdu_length.min(LARGE_PDU_SIZE) + PDU_HEADER_SIZE) as usize,
         );
-        let resp = read_pdu_from_wire(&mut socket, &mut buf, self.max_pdu_length, self.strict);
+        // (not strict: the negotiated maximum only binds P-DATA-TF PDUs)
+        let resp = read_pdu_from_wire(&mut socket, &mut buf, self.max_pdu_length, false);
         // If we're in non-TLS mode and `read_pdu_from_wire` fails, it
         // could be because the server expects TLS but we sent a
         // plaintext request.  In that case, we make a best effort to
@@ -1453,7 +1454,7 @@ impl<'a> ClientAssociationOptions<'a> {
                 &mut socket,
                 &mut read_buffer,
                 self.max_pdu_length,
-                self.strict,
+                false, // the negotiated maximum only binds P-DATA-TF PDUs
             )
             .await
         })
